@@ -276,7 +276,7 @@ func dtGrid() []DTCase {
 			}
 		}
 	}
-	out = append(out, DTCase{Path: `$a.datetime("HH24:MI")`, A: "12:34"}, DTCase{Path: `$a.time(2147483648)`, A: "12:34:56"}, DTCase{Path: `$a.time(2147483647)`, A: "12:34:56.1234567"}, DTCase{Path: `$a.timestamp(2147483647)`, A: "2015-08-01T12:34:56.1234567"}, DTCase{Path: `$a.time_tz(2147483647)`, A: "12:34:56.1234567+01"}, DTCase{Path: `$a.timestamp_tz(99999999999)`, A: "2015-08-01T12:34:56Z", TZ: true})
+	out = append(out, DTCase{Path: `$a.datetime("HH24:MI")`, A: "12:34"}, DTCase{Path: `$a.time(2147483648)`, A: "12:34:56"}, DTCase{Path: `$a.time(4294967297)`, A: "12:34:56.789"}, DTCase{Path: `$a.timestamp_tz(4294967296)`, A: "2015-08-01T12:34:56.789Z", TZ: true}, DTCase{Path: `$a.time_tz(8589934594)`, A: "12:34:56.789+01"}, DTCase{Path: `$a.timestamp(4294967302)`, A: "2015-08-01T12:34:56.1234567"}, DTCase{Path: `$a.time(2147483647)`, A: "12:34:56.1234567"}, DTCase{Path: `$a.timestamp(2147483647)`, A: "2015-08-01T12:34:56.1234567"}, DTCase{Path: `$a.time_tz(2147483647)`, A: "12:34:56.1234567+01"}, DTCase{Path: `$a.timestamp_tz(99999999999)`, A: "2015-08-01T12:34:56Z", TZ: true})
 	return out
 }
 
